@@ -2203,15 +2203,8 @@ func unmarshalTuple(info TypeInfo, data []byte, value interface{}) error {
 				return err
 			}
 
-			switch rv.Field(i).Kind() {
-			case reflect.Ptr:
-				if p != nil {
-					rv.Field(i).Set(reflect.ValueOf(v))
-				} else {
-					rv.Field(i).Set(reflect.Zero(reflect.TypeOf(v)))
-				}
-			default:
-				rv.Field(i).Set(reflect.ValueOf(v).Elem())
+			if err := setTupleElem(rv.Field(i), v, p == nil); err != nil {
+				return err
 			}
 		}
 
@@ -2243,15 +2236,8 @@ func unmarshalTuple(info TypeInfo, data []byte, value interface{}) error {
 				return err
 			}
 
-			switch rv.Index(i).Kind() {
-			case reflect.Ptr:
-				if p != nil {
-					rv.Index(i).Set(reflect.ValueOf(v))
-				} else {
-					rv.Index(i).Set(reflect.Zero(reflect.TypeOf(v)))
-				}
-			default:
-				rv.Index(i).Set(reflect.ValueOf(v).Elem())
+			if err := setTupleElem(rv.Index(i), v, p == nil); err != nil {
+				return err
 			}
 		}
 
@@ -2259,6 +2245,24 @@ func unmarshalTuple(info TypeInfo, data []byte, value interface{}) error {
 	}
 
 	return unmarshalErrorf("cannot unmarshal %s into %T", info, value)
+}
+
+// setTupleElem stores the tuple element v (a pointer obtained from TypeInfo.NewWithError) into
+// the struct field or slice element dst: the pointer itself if dst is a pointer (nil for a null
+// element), the pointee otherwise. It returns an error when dst can not hold the value.
+func setTupleElem(dst reflect.Value, v interface{}, isNull bool) error {
+	src := reflect.ValueOf(v)
+	if dst.Kind() != reflect.Ptr {
+		src = src.Elem()
+	}
+	if !dst.CanSet() || !src.Type().AssignableTo(dst.Type()) {
+		return unmarshalErrorf("can not unmarshal tuple element of type %s into %s", src.Type(), dst.Type())
+	}
+	if isNull && dst.Kind() == reflect.Ptr {
+		src = reflect.Zero(src.Type())
+	}
+	dst.Set(src)
+	return nil
 }
 
 // UDTMarshaler is an interface which should be implemented by users wishing to
@@ -2495,7 +2499,7 @@ func unmarshalUDT(info TypeInfo, data []byte, value interface{}) error {
 			}
 		}
 
-		if !f.IsValid() || !f.CanAddr() {
+		if !f.IsValid() || !f.CanAddr() || !f.CanInterface() {
 			return unmarshalErrorf("cannot unmarshal %s into %T: field %v is not valid", info, value, e.Name)
 		}
 
